@@ -97,6 +97,8 @@ let run (c : s list) : s =
   | A "mk_sat_exactly" :: nv :: k :: vs :: _ -> e_obdd (mk_sat_k false (d_n nv) (d_n k) (d_list d_n vs))
   | A "mk_sat_upto" :: nv :: k :: vs :: _ -> e_obdd (mk_sat_k true (d_n nv) (d_n k) (d_list d_n vs))
   | A "of_valuation" :: v :: _ -> e_bdd (of_valuation (d_bits 'v' v))
+  | A "cmp_implies" :: x :: y :: _ ->
+    e_outcome (e_opt (function OLt -> A "LT" | OEq -> A "EQ" | OGt -> A "GT")) (cmp_implies (d_bdd x) (d_bdd y))
   | A "eval" :: x :: v :: _ -> e_bool (eval (d_bdd x) (val_of_list (d_bits 'v' v)))
   | A "is_true" :: x :: _ -> e_bool (N.eqb (size (d_bdd x)) (n_of_int 2))
   | A "is_false" :: x :: _ -> e_bool (N.eqb (size (d_bdd x)) (n_of_int 1))
